@@ -43,3 +43,4 @@ def chain_compiler_rules(chk, repo, prefix):
     run_id_typestate(chk, repo, f'{prefix}.a', [repo.func('opgraph.OpGraph.from_opchains')], 6)
     C05.rule_R2(chk, repo, rid=f'{prefix}.b')
     C05.rule_R3(chk, repo, rid=f'{prefix}.c')
+    C05.rule_R5(chk, repo, rid=f'{prefix}.d')
